@@ -85,3 +85,37 @@ func FallsBackAt(at time.Time) *time.Location {
 	}
 	return loc
 }
+
+// SkipsMidnightAt builds a synthetic zone west of Greenwich (UTC-4, 'SYN') whose clock goes from 00:00 to 01:00 (UTC-3, 'SYD')
+// on the given calendar day - that day has no local midnight - and has been on UTC-4 for a year before it.
+func SkipsMidnightAt(y int, m time.Month, d int) *time.Location {
+	at := time.Date(y, m, d, 4, 0, 0, 0, time.UTC) // 00:00 at UTC-4
+	times := []int64{at.Unix() - 365*86400, at.Unix()}
+	idx := []byte{0, 1}
+	abbrev := []byte("SYN\x00SYD\x00")
+	b := []byte("TZif")
+	b = append(b, 0)
+	b = append(b, make([]byte, 15)...)
+	put32 := func(v uint32) { b = binary.BigEndian.AppendUint32(b, v) }
+	put32(0)
+	put32(0)
+	put32(0)
+	put32(uint32(len(times)))
+	put32(2)
+	put32(uint32(len(abbrev)))
+	for _, t := range times {
+		put32(uint32(int32(t)))
+	}
+	b = append(b, idx...)
+	west4, west3 := int32(-4*3600), int32(-3*3600)
+	put32(uint32(west4))
+	b = append(b, 0, 0)
+	put32(uint32(west3))
+	b = append(b, 1, 4)
+	b = append(b, abbrev...)
+	loc, err := time.LoadLocationFromTZData("Synthetic/SkipsMidnight", b)
+	if err != nil {
+		return nil
+	}
+	return loc
+}
